@@ -838,6 +838,66 @@ func (r *Run) checkReaderCountsMismatchOnly(P string) {
 	var visit func(g *ssa.Function, depth int)
 	visit = func(g *ssa.Function, depth int) {
 		gf := r.E.Facts(g, core.Ctx{})
+		// examine: the rejection that originates in block b (where the error value is made, or the failing return)
+		var examine func(b *ssa.BasicBlock, where string, d int)
+		examine = func(b *ssa.BasicBlock, where string, d int) {
+			// the deciding comparison: the condition of the nearest dominating If whose taken edge leads here
+			dec := decidingCond(b)
+			bo, isCmp := dec.(*ssa.BinOp)
+			if isCmp && d < 4 {
+				var ev ssa.Value
+				if isNilConst2(bo.Y) {
+					ev = bo.X
+				} else if isNilConst2(bo.X) {
+					ev = bo.Y
+				}
+				if ev != nil && isErrorTypeV(ev) {
+					// an error handed on: from a helper of the package (its rejections are examined instead), or
+					// made further up in this function (the merged result of an inlined helper) — then the place
+					// where each non-nil value is made is examined
+					handled := true
+					for _, l := range phiLeaves(ev) {
+						if isNilConst2(l) {
+							continue
+						}
+						if ex, isEx := l.(*ssa.Extract); isEx {
+							l = ex.Tuple
+						}
+						c, isCall := l.(*ssa.Call)
+						if !isCall {
+							handled = false
+							continue
+						}
+						if h := c.Common().StaticCallee(); h != nil && h.Pkg == g.Pkg && len(h.Blocks) > 0 && r.P.IsSubject(h) && depth < 3 {
+							visit(h, depth+1)
+							continue
+						}
+						if c.Block() != b {
+							examine(c.Block(), r.P.Pos(c.Pos()), d+1)
+							continue
+						}
+						handled = false
+					}
+					if handled {
+						return
+					}
+				}
+			}
+			nFail++
+			cnt := func(v ssa.Value) bool {
+				return isCount(v, 0) || isCountTerm(core.StripOrZero(gf.TB.Of(v)), isCount)
+			}
+			switch {
+			case !isCmp:
+				good = false
+				det = append(det, where+": rejection not decided by a comparison")
+			case cnt(bo.X) && cnt(bo.Y) && (bo.Op == token.NEQ || bo.Op == token.EQL):
+				// mismatch between two counts
+			default:
+				good = false
+				det = append(det, where+": rejection decided by "+gf.TB.Of(bo.X).String()+" "+bo.Op.String()+" "+gf.TB.Of(bo.Y).String()+", which is not a mismatch between two counts")
+			}
+		}
 		for _, b := range g.Blocks {
 			ret, ok := b.Instrs[len(b.Instrs)-1].(*ssa.Return)
 			if !ok || isNilConstV(core.RetOp(ret, len(ret.Results)-1)) {
@@ -858,42 +918,7 @@ func (r *Run) checkReaderCountsMismatchOnly(P string) {
 					continue
 				}
 			}
-			// the deciding comparison: the condition of the nearest dominating If whose taken edge leads here
-			dec := decidingCond(b)
-			bo, isCmp := dec.(*ssa.BinOp)
-			// an error propagated from a helper of the package: the helper's rejections are examined instead
-			if isCmp && depth < 3 {
-				var ev ssa.Value
-				if isNilConst2(bo.Y) {
-					ev = bo.X
-				} else if isNilConst2(bo.X) {
-					ev = bo.Y
-				}
-				if ev != nil {
-					for _, l := range phiLeaves(ev) {
-						if c, isCall := l.(*ssa.Call); isCall {
-							if h := c.Common().StaticCallee(); h != nil && h.Pkg == g.Pkg && len(h.Blocks) > 0 && r.P.IsSubject(h) {
-								visit(h, depth+1)
-								ev = nil
-							}
-						}
-					}
-					if ev == nil {
-						continue
-					}
-				}
-			}
-			nFail++
-			switch {
-			case !isCmp:
-				good = false
-				det = append(det, r.P.Pos(ret.Pos())+": rejection not decided by a comparison")
-			case isCount(bo.X, 0) && isCount(bo.Y, 0) && (bo.Op == token.NEQ || bo.Op == token.EQL):
-				// mismatch between two counts
-			default:
-				good = false
-				det = append(det, r.P.Pos(ret.Pos())+": rejection decided by "+gf.TB.Of(bo.X).String()+" "+bo.Op.String()+" "+gf.TB.Of(bo.Y).String()+", which is not a mismatch between two counts")
-			}
+			examine(b, r.P.Pos(ret.Pos()), 0)
 		}
 	}
 	visit(f, 0)
@@ -1099,4 +1124,24 @@ func (r *Run) checkAnchorCount(P string, f *ssa.Function) {
 	}
 	r.R.Check(okCount, P+".count.anchor", "E13: the anchor string's operation count is Size() of the included (sorted) operations", core.FuncName(f), r.where(f),
 		"if deferred or expired operations are counted, the reader rejects the batch (count mismatch)", det, "count is "+det)
+}
+
+// isCountTerm: t is a list length, a sum of such, or a merged value all of whose operands are counts (or 0).
+func isCountTerm(t *core.Term, isCountVal func(ssa.Value, int) bool) bool {
+	if t == nil {
+		return false
+	}
+	switch t.Op {
+	case "len":
+		return true
+	case "bin":
+		return t.Name == "+" && len(t.Args) == 2 && isCountTerm(t.Args[0], isCountVal) && isCountTerm(t.Args[1], isCountVal)
+	case "conv":
+		return len(t.Args) == 1 && isCountTerm(t.Args[0], isCountVal)
+	case "phi":
+		if v, ok := t.Val.(ssa.Value); ok {
+			return isCountVal(v, 0)
+		}
+	}
+	return false
 }
